@@ -209,8 +209,32 @@ func checkWith(files []dump.File, path bool) (f *fail, clean bool, nodes int) {
 				return
 			}
 		}
-		if path && len(files) > 1 {
+		if path && len(files) > 1 && f == nil {
 			f = fromPath(files)
+		}
+		// the options that change what is built - targets of not-supported retained, uses recorded,
+		// include cycles tolerated: a clean run still leaves proper trees
+		if f == nil && clean {
+			for _, x := range files {
+				if strings.Contains(x.Text, "deviat") || strings.Contains(x.Text, "uses") {
+					ms := yang.NewModules()
+					ms.ParseOptions.DeviateOptions.IgnoreDeviateNotSupported = true
+					ms.ParseOptions.StoreUses = true
+					ms.ParseOptions.IgnoreSubmoduleCircularDependencies = true
+					for _, y := range files {
+						if err := ms.Parse(y.Text, y.Name); err != nil {
+							return
+						}
+					}
+					if errs := ms.Process(); len(errs) > 0 {
+						return
+					}
+					if p := Invariants(ms); len(p) > 0 {
+						f = &fail{classify(p) + ":with-parse-options", "a proper tree without recorded errors", strings.Join(p, "\n")}
+					}
+					return
+				}
+			}
 		}
 	})
 	if pan {
@@ -285,7 +309,7 @@ func run(c *core.Ctx) {
 		return
 	}
 	fmt.Sscanf(c.Shard, "corpus/%d", &shard)
-	c.Res.Bound = "every program of the USES, AUG and CFG families and of the conflict library (deviations of every kind, two deviating or augmenting modules, revisions, submodules, errors) and the scale sets (deep nesting to 40 (70), wide containers, long chains, many imports and includes at every size up to a bound and around the powers of two; 18 sets of 1 700 to 82 000 statements) in two load orders, and - for every hand-written set and a third (thorough: all) of the generated ones - each file loaded alone with the others fetched from a search path during Process; invariants evaluated on every node of every module and submodule tree of every set that processes without error, before and after path lookups into rpc input/output"
+	c.Res.Bound = "every program of the USES, AUG and CFG families and of the conflict library (deviations of every kind, two deviating or augmenting modules, revisions, submodules, errors) and the scale sets (deep nesting to 40 (70), wide containers, long chains, many imports and includes at every size up to a bound and around the powers of two; 18 sets of 1 700 to 82 000 statements) in two load orders, and - for every hand-written set and a third (thorough: all) of the generated ones - each file loaded alone with the others fetched from a search path during Process; sets with deviations or uses statements also with the three parse options switched on; invariants evaluated on every node of every module and submodule tree of every set that processes without error, before and after path lookups into rpc input/output"
 	stride := 1
 	n := 0
 	corpus.Each(c.Tier, shard, nShards, stride, func(s corpus.Set) {
